@@ -703,8 +703,23 @@ def ftp_proc_once(plan, data, url, glob_on, preserve, seed, opts=None):
             if o.get('file_writer'):
                 # files really saved below tmp (what --retr-symlinks off and the permission code need)
                 from wpull.path import PathNamer
-                from wpull.writer import OverwriteFileWriter
-                writer = OverwriteFileWriter(PathNamer(os.path.join(tmp, 'out'), use_dir=True, hostname=True))
+                import wpull.writer as ww
+                kind = o.get('writer_kind', 'overwrite')
+                cls = {'overwrite': ww.OverwriteFileWriter, 'timestamping': ww.TimestampingFileWriter, 'anticlobber': ww.AntiClobberFileWriter,
+                       'ignore': ww.IgnoreFileWriter}[kind]
+                writer = cls(PathNamer(os.path.join(tmp, 'out'), use_dir=True, hostname=True))
+                if o.get('existing'):
+                    # a file left by an earlier run where this URL is to be saved (what -N / -nc / the numbered names look at)
+                    from wpull.url import URLInfo
+                    try:
+                        ui = URLInfo.parse(url)
+                        target = os.path.join(tmp, 'out', ui.hostname, *[p for p in ui.path.split('/') if p]) if ui.path.strip('/') else None
+                        if target and not ui.path.endswith('/'):
+                            os.makedirs(os.path.dirname(target), exist_ok=True)
+                            with open(target, 'wb') as f:
+                                f.write(b'old')
+                    except (ValueError, OSError):
+                        pass
             if o.get('warc'):
                 # --warc-file: the recorder listens to every FTP session (control conversation, data)
                 from wpull.warc.recorder import WARCRecorder, WARCRecorderParams
@@ -758,7 +773,8 @@ def stream_ftp_proc(ctx, n):
             plan, data, mlsd = gen_ftp_plan(rng, True)
         glob_on, preserve = rng.random() < 0.7, rng.random() < 0.5
         seed = rng.randrange(1 << 30)
-        opts = {'file_writer': rng.random() < 0.5, 'warc': rng.random() < 0.4, 'retr_symlinks': rng.random() < 0.6}
+        opts = {'file_writer': rng.random() < 0.5, 'warc': rng.random() < 0.4, 'retr_symlinks': rng.random() < 0.6,
+                'writer_kind': rng.choice(['overwrite', 'overwrite', 'timestamping', 'anticlobber', 'ignore']), 'existing': rng.random() < 0.5}
         case = {'stream': 'ftp-proc', 'plan': plan, 'data': data, 'url': url, 'glob': glob_on, 'preserve': preserve, 'seed': seed, 'opts': opts}
         first = first or case
         r = ftp_proc_once(plan, data, url, glob_on, preserve, seed, opts)
